@@ -46,6 +46,10 @@ def main():
         if not quick:
             jobs.append(('SymbolicParseTree description %r k=3' % (sh2,), dotcore.unit_parse_tree, (sh2, 3, dict(timeout=1500))))
     jobs += maincore.jobs_dot(quick)
+    # ids of inner nodes are allocation addresses: identifying them with node structure needs every exported diagram to
+    # consist of the table's own nodes - the sharing units of C13, discharged in this run as well
+    import c13
+    jobs += c13.sharing_jobs(quick)
     jobs.append(('<BDD as PartialEq>::eq on canonical diagrams k=3', bddcore.unit_bdd_eq, (3, {})))
     jobs.append(('selftest:T and F edge labels swapped', dotcore.unit_bdd_graph, (1, dict(mutate=('edge_label', 'const "T"', 'const "F"')))))
     jobs.append(('selftest:the false leaf gets the id of the true leaf', dotcore.unit_bdd_graph, (1, dict(mutate=('node_id', 'const "n_false"', 'const "n_true"')))))
